@@ -20,8 +20,7 @@ import (
 	"encoding/json"
 	"fmt"
 	"os"
-	"sort"
-	"strings"
+		"strings"
 	"sync"
 	"testing"
 	"time"
@@ -54,13 +53,12 @@ type c15Replay struct {
 	Note       string   `json:"note"`
 }
 
-type c15Vio struct {
-	sig, desc string
-}
-
 // c15Ctx collects what one worker element observed; merged single-threaded afterwards.
 type c15Ctx struct {
 	vios     []verifmc.Violation
+	vioCount map[string]int64
+	curRoot  uint    // the history being evaluated
+	curOps   []c15Op
 	outcomes map[string]int64
 	states   map[[16]byte]struct{}
 	trans    int64
@@ -69,7 +67,16 @@ type c15Ctx struct {
 }
 
 func c15NewCtx() *c15Ctx {
-	return &c15Ctx{outcomes: map[string]int64{}, states: map[[16]byte]struct{}{}}
+	return &c15Ctx{outcomes: map[string]int64{}, states: map[[16]byte]struct{}{}, vioCount: map[string]int64{}}
+}
+
+// vio counts a mismatch; only the first two per signature and element are rendered and kept.
+func (c *c15Ctx) vio(sig string, desc func() string) {
+	c.vioCount[sig]++
+	if c.vioCount[sig] <= 2 {
+		c.vios = append(c.vios, verifmc.Violation{Sig: sig, Desc: desc(), Replay: c15Replay{RootNumber: c.curRoot, Ops: c15OpNames(c.curOps),
+			Note: "labels b0,b1,.. are assigned in creation order; b0 is the initial root"}})
+	}
 }
 
 func (c *c15Ctx) out(s string) { c.outcomes[s]++ }
@@ -84,10 +91,9 @@ func c15OpNames(ops []c15Op) []string {
 
 // c15Exec replays ops on a fresh real tree and a fresh model.  Only the result of the last
 // op is compared (every prefix is a history of its own); returns the mismatches of that op.
-func c15Exec(rootNum uint, ops []c15Op, c *c15Ctx) (*BlockTree, *c15Model, []c15Vio) {
+func c15Exec(rootNum uint, ops []c15Op, c *c15Ctx) (*BlockTree, *c15Model) {
 	m := c15NewModel(rootNum)
 	bt := NewBlockTreeFromRoot(m.header[0])
-	var vios []c15Vio
 	for i, op := range ops {
 		last := i == len(ops)-1
 		c.trans++
@@ -98,7 +104,7 @@ func c15Exec(rootNum uint, ops []c15Op, c *c15Ctx) (*BlockTree, *c15Model, []c15
 			if last {
 				switch {
 				case wantHeld && err != nil:
-					vios = append(vios, c15Vio{"AddBlock:rejects-child-of-held-block", fmt.Sprintf("AddBlock(child of held b%d) = %v", op.parent, err)})
+					c.vio("AddBlock:rejects-child-of-held-block", func() string { return fmt.Sprintf("AddBlock(child of held b%d) = %v", op.parent, err) })
 				case wantHeld:
 					c.out("AddBlock:ok")
 				case err == nil:
@@ -124,15 +130,15 @@ func c15Exec(rootNum uint, ops []c15Op, c *c15Ctx) (*BlockTree, *c15Model, []c15
 		if !wasHeld {
 			// finalising the current root / a block the tree does not hold: the statement is
 			// silent about the returned list; the state check below uses the unchanged model
-			c.out(fmt.Sprintf("Prune:target-not-a-held-descendant:reported=%d", len(got)))
+			c.out("Prune:target-not-a-held-descendant:reported=" + c15Num[len(got)])
 			continue
 		}
-		c.out(fmt.Sprintf("Prune:ok:pruned=%d,kept=%d", len(want), len(m.held())))
+		c.out("Prune:ok:pruned=" + c15Num[len(want)] + ",kept=" + c15Num[len(m.held())])
 		if sig, desc := c15ClassifyPrune(m, before, oldRoot, x, want, got); sig != "" {
-			vios = append(vios, c15Vio{sig, desc})
+			c.vio(sig, func() string { return desc })
 		}
 	}
-	return bt, m, vios
+	return bt, m
 }
 
 // c15ClassifyPrune compares the reported list with the expected set and names the shape.
@@ -223,26 +229,27 @@ func c15TreeString(m *c15Model, held []int, root int) string {
 	return rec(root)
 }
 
-func c15HashSet(m *c15Model, hs []common.Hash) (set string, dups bool) {
-	seen := map[common.Hash]bool{}
-	var ls []string
+// c15Mask turns a list of hashes into a bit set of labels; bad = a hash that is no created
+// block, or one listed twice.
+func c15Mask(m *c15Model, hs []common.Hash) (mask uint32, bad bool) {
 	for _, h := range hs {
-		if seen[h] {
-			dups = true
+		l, ok := m.byHash[h]
+		if !ok || mask&(1<<uint(l)) != 0 {
+			bad = true
+			continue
 		}
-		seen[h] = true
-		ls = append(ls, m.label(h))
+		mask |= 1 << uint(l)
 	}
-	sort.Strings(ls)
-	return fmt.Sprint(ls), dups
+	return mask, bad
 }
 
-func c15WantSet(ls []int) string {
-	s := make([]string, len(ls))
-	for i, l := range ls {
-		s[i] = fmt.Sprintf("b%d", l)
+func c15MaskString(mask uint32) string {
+	var s []string
+	for l := 0; l < 32; l++ {
+		if mask&(1<<uint(l)) != 0 {
+			s = append(s, fmt.Sprintf("b%d", l))
+		}
 	}
-	sort.Strings(s)
 	return fmt.Sprint(s)
 }
 
@@ -258,95 +265,169 @@ func c15EqualPath(m *c15Model, got []common.Hash, want []int) bool {
 	return true
 }
 
-// c15CheckState compares every query of the real tree with the model.
-func c15CheckState(bt *BlockTree, m *c15Model, c *c15Ctx) (vios []c15Vio) {
-	add := func(sig, format string, a ...any) {
-		vios = append(vios, c15Vio{sig, fmt.Sprintf(format, a...) + " in tree " + c15TreeString(m, m.held(), m.root)})
+var c15Num = func() (t [40]string) {
+	for i := range t {
+		t[i] = fmt.Sprint(i)
 	}
-	held := m.held()
+	return
+}()
+
+// c15CheckState compares every query of the real tree with the model.
+func c15CheckState(bt *BlockTree, m *c15Model, c *c15Ctx) {
+	add := func(sig string, desc func() string) {
+		c.vio(sig, func() string { return desc() + " in tree " + c15TreeString(m, m.held(), m.root) })
+	}
+	n := len(m.hash)
+	var heldMask, leafMask uint32
+	below := make([]uint32, n) // below[a] = held descendants of a, incl. a
+	for l := 0; l < n; l++ {
+		if m.inTree[l] {
+			heldMask |= 1 << uint(l)
+		}
+	}
+	leafMask = heldMask
+	for l := 0; l < n; l++ {
+		if !m.inTree[l] {
+			continue
+		}
+		if l != m.root {
+			leafMask &^= 1 << uint(m.parent[l])
+		}
+		for x := l; ; x = m.parent[x] {
+			below[x] |= 1 << uint(l)
+			if x == m.root {
+				break
+			}
+		}
+	}
+	anc := func(a, b int) bool { return below[a]&(1<<uint(b)) != 0 }
+
 	// private structure: parent links mirror child links, numbers follow depth
 	if bt.root.parent != nil {
-		add("Struct:root-has-parent", "root.parent != nil")
+		add("Struct:root-has-parent", func() string { return "root.parent != nil" })
 	}
-	var walk func(n *node)
-	walk = func(n *node) {
-		for _, ch := range n.children {
-			if ch.parent != n {
-				add("Struct:child-parent-link-mismatch", "child %s of %s has parent pointer %v", m.label(ch.hash), m.label(n.hash), ch.parent)
+	var walk func(nd *node)
+	walk = func(nd *node) {
+		for _, ch := range nd.children {
+			ch, nd := ch, nd
+			if ch.parent != nd {
+				add("Struct:child-parent-link-mismatch", func() string {
+					return fmt.Sprintf("child %s of %s has another parent pointer", m.label(ch.hash), m.label(nd.hash))
+				})
 			}
-			if ch.number != n.number+1 {
-				add("Struct:number-not-parent-plus-one", "child %s number %d, parent number %d", m.label(ch.hash), ch.number, n.number)
+			if ch.number != nd.number+1 {
+				add("Struct:number-not-parent-plus-one", func() string {
+					return fmt.Sprintf("child %s number %d, parent number %d", m.label(ch.hash), ch.number, nd.number)
+				})
 			}
 			walk(ch)
 		}
 	}
 	walk(bt.root)
 
-	c.queries++
-	if got, dups := c15HashSet(m, bt.GetAllBlocks()); got != c15WantSet(held) || dups {
-		add("GetAllBlocks:wrong-set", "GetAllBlocks = %s (dups %v), want %s", got, dups, c15WantSet(held))
+	c.queries += 2
+	if all := bt.GetAllBlocks(); true {
+		if got, bad := c15Mask(m, all); got != heldMask || bad {
+			add("GetAllBlocks:wrong-set", func() string { return fmt.Sprintf("GetAllBlocks = %s, want %s", m.labels(all), c15MaskString(heldMask)) })
+		}
 	}
-	c.queries++
-	if got, dups := c15HashSet(m, bt.Leaves()); got != c15WantSet(m.leaves()) || dups {
-		add("Leaves:wrong-set", "Leaves = %s (dups %v), want %s", got, dups, c15WantSet(m.leaves()))
+	if lv := bt.Leaves(); true {
+		if got, bad := c15Mask(m, lv); got != leafMask || bad {
+			add("Leaves:wrong-set", func() string { return fmt.Sprintf("Leaves = %s, want %s", m.labels(lv), c15MaskString(leafMask)) })
+		}
 	}
-	c.out(fmt.Sprintf("state:held=%d,leaves=%d", len(held), len(m.leaves())))
+	nHeld, nLeaves := 0, 0
+	for l := 0; l < n; l++ {
+		if heldMask&(1<<uint(l)) != 0 {
+			nHeld++
+		}
+		if leafMask&(1<<uint(l)) != 0 {
+			nLeaves++
+		}
+	}
+	c.out("state:held=" + c15Num[nHeld] + ",leaves=" + c15Num[nLeaves])
 
-	n := len(m.hash)
+	// blocks the tree must not hold are paired with the root and one leaf only (every query
+	// resolves its arguments through the same lookup)
+	firstLeaf := 0
+	for l := 0; l < n; l++ {
+		if leafMask&(1<<uint(l)) != 0 {
+			firstLeaf = l
+			break
+		}
+	}
 	for a := 0; a < n; a++ {
+		a := a
 		ha := m.hash[a]
-		// descendants
 		c.queries++
 		desc, err := bt.GetAllDescendants(ha)
 		if m.inTree[a] {
-			var want []int
-			for _, l := range held {
-				if m.anc(a, l) {
-					want = append(want, l)
-				}
-			}
-			got, dups := c15HashSet(m, desc)
-			if err != nil || got != c15WantSet(want) || dups {
-				add("GetAllDescendants:wrong-set", "GetAllDescendants(b%d) = %s, %v (dups %v), want %s", a, got, err, dups, c15WantSet(want))
+			got, bad := c15Mask(m, desc)
+			if err != nil || got != below[a] || bad {
+				add("GetAllDescendants:wrong-set", func() string {
+					return fmt.Sprintf("GetAllDescendants(b%d) = %s, %v, want %s", a, m.labels(desc), err, c15MaskString(below[a]))
+				})
 			}
 		} else if err == nil {
-			add("NotHeld:GetAllDescendants-answers-for-block-not-in-tree", "GetAllDescendants(b%d) = %s, nil for a block the tree must not hold", a, m.labels(desc))
+			add("NotHeld:GetAllDescendants-answers-for-block-not-in-tree", func() string {
+				return fmt.Sprintf("GetAllDescendants(b%d) = %s, nil for a block the tree must not hold", a, m.labels(desc))
+			})
 		} else {
 			c.out("GetAllDescendants:not-held:error")
 		}
 		for b := 0; b < n; b++ {
+			b := b
 			hb := m.hash[b]
 			both := m.inTree[a] && m.inTree[b]
+			if !both && !((a == m.root || a == firstLeaf || !m.inTree[a]) && (b == m.root || b == firstLeaf || !m.inTree[b])) {
+				continue
+			}
+			if !both && !m.inTree[a] && !m.inTree[b] && a != b {
+				continue
+			}
 			// ancestry
 			c.queries++
 			is, err := bt.IsDescendantOf(ha, hb)
 			switch {
 			case both && err != nil:
-				add("IsDescendantOf:error-for-held-blocks", "IsDescendantOf(b%d,b%d) = %v", a, b, err)
-			case both && is != m.anc(a, b):
-				add("IsDescendantOf:wrong-answer", "IsDescendantOf(b%d,b%d) = %v, parent links say %v", a, b, is, m.anc(a, b))
+				add("IsDescendantOf:error-for-held-blocks", func() string { return fmt.Sprintf("IsDescendantOf(b%d,b%d) = %v", a, b, err) })
+			case both && is != anc(a, b):
+				add("IsDescendantOf:wrong-answer", func() string {
+					return fmt.Sprintf("IsDescendantOf(b%d,b%d) = %v, parent links say %v", a, b, is, anc(a, b))
+				})
+			case both && is:
+				c.out("IsDescendantOf:true")
 			case both:
-				c.out(fmt.Sprintf("IsDescendantOf:%v", is))
+				c.out("IsDescendantOf:false")
 			case a != b && err == nil && is:
-				add("NotHeld:IsDescendantOf-true-for-block-not-in-tree", "IsDescendantOf(b%d,b%d) = true, nil (held: %v, %v)", a, b, m.inTree[a], m.inTree[b])
+				add("NotHeld:IsDescendantOf-true-for-block-not-in-tree", func() string {
+					return fmt.Sprintf("IsDescendantOf(b%d,b%d) = true, nil (held: %v, %v)", a, b, m.inTree[a], m.inTree[b])
+				})
 			default:
 				c.out("IsDescendantOf:not-held")
 			}
 			// lowest common ancestor
 			c.queries++
 			var lca common.Hash
-			p, msg := verifmc.Guard(func() { lca, err = bt.LowestCommonAncestor(ha, hb) })
+			var lerr error
+			p, msg := verifmc.Guard(func() { lca, lerr = bt.LowestCommonAncestor(ha, hb) })
 			switch {
 			case p:
-				add("LowestCommonAncestor:panic", "LowestCommonAncestor(b%d,b%d): %s", a, b, strings.SplitN(msg, "\n", 2)[0])
-			case both && err != nil:
-				add("LowestCommonAncestor:error-for-held-blocks", "LowestCommonAncestor(b%d,b%d) = %v", a, b, err)
+				add("LowestCommonAncestor:panic", func() string {
+					return fmt.Sprintf("LowestCommonAncestor(b%d,b%d): %s", a, b, strings.SplitN(msg, "\n", 2)[0])
+				})
+			case both && lerr != nil:
+				add("LowestCommonAncestor:error-for-held-blocks", func() string { return fmt.Sprintf("LowestCommonAncestor(b%d,b%d) = %v", a, b, lerr) })
 			case both && lca != m.hash[m.lca(a, b)]:
-				add("LowestCommonAncestor:wrong-answer", "LowestCommonAncestor(b%d,b%d) = %s, parent links say b%d", a, b, m.label(lca), m.lca(a, b))
+				add("LowestCommonAncestor:wrong-answer", func() string {
+					return fmt.Sprintf("LowestCommonAncestor(b%d,b%d) = %s, parent links say b%d", a, b, m.label(lca), m.lca(a, b))
+				})
 			case both:
 				c.out("LowestCommonAncestor:ok:" + c15Rel(m, a, b))
-			case err == nil:
-				add("NotHeld:LowestCommonAncestor-answers-for-block-not-in-tree", "LowestCommonAncestor(b%d,b%d) = %s, nil (held: %v, %v)", a, b, m.label(lca), m.inTree[a], m.inTree[b])
+			case lerr == nil:
+				add("NotHeld:LowestCommonAncestor-answers-for-block-not-in-tree", func() string {
+					return fmt.Sprintf("LowestCommonAncestor(b%d,b%d) = %s, nil (held: %v, %v)", a, b, m.label(lca), m.inTree[a], m.inTree[b])
+				})
 			default:
 				c.out("LowestCommonAncestor:not-held:error")
 			}
@@ -360,43 +441,54 @@ func c15CheckState(bt *BlockTree, m *c15Model, c *c15Ctx) (vios []c15Vio) {
 				}
 				c.queries++
 				var got []common.Hash
-				p, msg := verifmc.Guard(func() { got, err = f(ha, hb) })
+				var rerr error
+				p, msg := verifmc.Guard(func() { got, rerr = f(ha, hb) })
 				switch {
 				case p:
-					add(name+":panic", "%s(b%d,b%d): %s", name, a, b, strings.SplitN(msg, "\n", 2)[0])
-				case both && m.anc(a, b):
-					if err != nil {
-						add(name+":error-for-ancestor-descendant-pair", "%s(b%d,b%d) = %v", name, a, b, err)
+					add(name+":panic", func() string { return fmt.Sprintf("%s(b%d,b%d): %s", name, a, b, strings.SplitN(msg, "\n", 2)[0]) })
+				case both && anc(a, b):
+					if rerr != nil {
+						add(name+":error-for-ancestor-descendant-pair", func() string { return fmt.Sprintf("%s(b%d,b%d) = %v", name, a, b, rerr) })
 					} else if !c15EqualPath(m, got, m.path(a, b)) {
-						add(name+":wrong-chain", "%s(b%d,b%d) = %s, parent links give %v", name, a, b, m.labels(got), m.path(a, b))
+						add(name+":wrong-chain", func() string {
+							return fmt.Sprintf("%s(b%d,b%d) = %s, parent links give %v", name, a, b, m.labels(got), m.path(a, b))
+						})
 					} else {
-						c.out(fmt.Sprintf("%s:chain:len=%d", name, len(got)))
+						c.out(name + ":chain:len=" + c15Num[len(got)])
 					}
 				case both:
 					// start is not an ancestor of end: no chain of parent links joins them
-					if err == nil {
-						add(name+":start-not-ancestor-of-end-answered-with-non-chain", "%s(b%d,b%d) = %s, nil although b%d is not an ancestor of b%d (%s)", name, a, b, m.labels(got), a, b, c15Rel(m, a, b))
+					if rerr == nil {
+						add(name+":start-not-ancestor-of-end-answered-with-non-chain", func() string {
+							return fmt.Sprintf("%s(b%d,b%d) = %s, nil although b%d is not an ancestor of b%d (%s)", name, a, b, m.labels(got), a, b, c15Rel(m, a, b))
+						})
 					} else {
 						c.out(name + ":not-ancestor:error")
 					}
 				case m.inTree[b] && !inMem:
 					// documented: unknown start => chain from the root to end
-					if err != nil {
+					if rerr != nil {
 						c.out("Range:unknown-start:error")
 					} else if !c15EqualPath(m, got, m.path(m.root, b)) {
-						add("Range:unknown-start-wrong-chain", "Range(b%d (not held),b%d) = %s, chain from root is %v", a, b, m.labels(got), m.path(m.root, b))
+						add("Range:unknown-start-wrong-chain", func() string {
+							return fmt.Sprintf("Range(b%d (not held),b%d) = %s, chain from root is %v", a, b, m.labels(got), m.path(m.root, b))
+						})
 					} else {
 						c.out("Range:unknown-start:chain-from-root")
 					}
 				case m.inTree[b]:
-					if err == nil {
-						add("NotHeld:RangeInMemory-answers-for-start-not-in-tree", "RangeInMemory(b%d (not held),b%d) = %s, nil", a, b, m.labels(got))
+					if rerr == nil {
+						add("NotHeld:RangeInMemory-answers-for-start-not-in-tree", func() string {
+							return fmt.Sprintf("RangeInMemory(b%d (not held),b%d) = %s, nil", a, b, m.labels(got))
+						})
 					} else {
 						c.out("RangeInMemory:unknown-start:error")
 					}
 				default:
-					if err == nil {
-						add("NotHeld:"+name+"-answers-for-end-not-in-tree", "%s(b%d,b%d (not held)) = %s, nil", name, a, b, m.labels(got))
+					if rerr == nil {
+						add("NotHeld:"+name+"-answers-for-end-not-in-tree", func() string {
+							return fmt.Sprintf("%s(b%d,b%d (not held)) = %s, nil", name, a, b, m.labels(got))
+						})
 					} else {
 						c.out(name + ":unknown-end:error")
 					}
@@ -409,8 +501,8 @@ func c15CheckState(bt *BlockTree, m *c15Model, c *c15Ctx) (vios []c15Vio) {
 	best := bt.BestBlockHash()
 	bl, ok := m.byHash[best]
 	if !ok || !m.inTree[bl] {
-		add("BestBlockHash:not-a-held-block", "BestBlockHash = %s", m.label(best))
-		return vios
+		add("BestBlockHash:not-a-held-block", func() string { return fmt.Sprintf("BestBlockHash = %s", m.label(best)) })
+		return
 	}
 	var maxNum uint
 	for l := range m.hash {
@@ -423,23 +515,27 @@ func c15CheckState(bt *BlockTree, m *c15Model, c *c15Ctx) (vios []c15Vio) {
 		lo--
 	}
 	for num := lo; num <= maxNum+1; num++ {
-		var want []int
-		for _, l := range held {
-			if m.number[l] == num {
-				want = append(want, l)
+		num := num
+		var want uint32
+		nWant := 0
+		for l := 0; l < n; l++ {
+			if m.inTree[l] && m.number[l] == num {
+				want |= 1 << uint(l)
+				nWant++
 			}
 		}
 		c.queries++
 		gotH := bt.GetHashesAtNumber(num)
-		got, dups := c15HashSet(m, gotH)
-		if got != c15WantSet(want) || dups {
+		if got, bad := c15Mask(m, gotH); got != want || bad {
 			sig := "GetHashesAtNumber:wrong-result"
 			if len(gotH) == 0 && num > m.number[bl] {
 				sig = "GetHashesAtNumber:empty-for-number-above-best-leaf"
 			}
-			add(sig, "GetHashesAtNumber(%d) = %s (dups %v), blocks with that number: %s (best leaf b%d has number %d)", num, got, dups, c15WantSet(want), bl, m.number[bl])
+			add(sig, func() string {
+				return fmt.Sprintf("GetHashesAtNumber(%d) = %s, blocks with that number: %s (best leaf b%d has number %d)", num, m.labels(gotH), c15MaskString(want), bl, m.number[bl])
+			})
 		} else {
-			c.out(fmt.Sprintf("GetHashesAtNumber:ok:n=%d", len(want)))
+			c.out("GetHashesAtNumber:ok:n=" + c15Num[nWant])
 		}
 		c.queries++
 		h, err := bt.GetHashByNumber(num)
@@ -449,19 +545,20 @@ func c15CheckState(bt *BlockTree, m *c15Model, c *c15Ctx) (vios []c15Vio) {
 			l, known := m.byHash[h]
 			switch {
 			case !known || !m.inTree[l] || m.number[l] != num:
-				add("GetHashByNumber:block-without-that-number", "GetHashByNumber(%d) = %s", num, m.label(h))
-			case !m.anc(l, bl):
-				add("GetHashByNumber:not-on-best-chain", "GetHashByNumber(%d) = b%d, best leaf is b%d", num, l, bl)
+				add("GetHashByNumber:block-without-that-number", func() string { return fmt.Sprintf("GetHashByNumber(%d) = %s", num, m.label(h)) })
+			case !anc(l, bl):
+				add("GetHashByNumber:not-on-best-chain", func() string { return fmt.Sprintf("GetHashByNumber(%d) = b%d, best leaf is b%d", num, l, bl) })
 			default:
 				c.out("GetHashByNumber:ok")
 			}
 		case onBest:
-			add("GetHashByNumber:error-for-number-on-best-chain", "GetHashByNumber(%d) = %v, best leaf b%d has number %d, root number %d", num, err, bl, m.number[bl], m.number[m.root])
+			add("GetHashByNumber:error-for-number-on-best-chain", func() string {
+				return fmt.Sprintf("GetHashByNumber(%d) = %v, best leaf b%d has number %d, root number %d", num, err, bl, m.number[bl], m.number[m.root])
+			})
 		default:
 			c.out("GetHashByNumber:out-of-range:error")
 		}
 	}
-	return vios
 }
 
 func c15Rel(m *c15Model, a, b int) string {
@@ -484,19 +581,14 @@ func c15Rel(m *c15Model, a, b int) string {
 // c15Eval executes one history and checks its last op and the reached state.
 func c15Eval(rootNum uint, ops []c15Op, c *c15Ctx) {
 	c.hists++
-	var vios []c15Vio
+	c.curRoot, c.curOps = rootNum, ops
 	p, msg := verifmc.Guard(func() {
-		bt, m, v := c15Exec(rootNum, ops, c)
-		vios = append(vios, v...)
+		bt, m := c15Exec(rootNum, ops, c)
 		c.states[c15Key(fmt.Sprintf("%x", bt.root.hash[:4])+c15Dump(bt, m))] = struct{}{}
-		vios = append(vios, c15CheckState(bt, m, c)...)
+		c15CheckState(bt, m, c)
 	})
 	if p {
-		vios = append(vios, c15Vio{"panic:" + verifmc.PanicSite(msg), msg})
-	}
-	for _, v := range vios {
-		c.vios = append(c.vios, verifmc.Violation{Sig: v.sig, Desc: v.desc,
-			Replay: c15Replay{RootNumber: rootNum, Ops: c15OpNames(ops), Note: "labels b0,b1,.. are assigned in creation order; b0 is the initial root"}})
+		c.vio("panic:"+verifmc.PanicSite(msg), func() string { return msg })
 	}
 }
 
@@ -580,6 +672,7 @@ func c15Replayed(t *testing.T, r *verifmc.Report, path string) {
 		for _, v := range c.vios {
 			r.Violate(v.Sig, v.Desc, v.Replay)
 		}
+		t.Logf("replay %d: %d mismatches %v", i, len(c.vios), c.vioCount)
 		r.Add("traces_validated_against_impl", 1)
 	}
 }
@@ -591,17 +684,33 @@ func TestVerif_C15(t *testing.T) {
 		c15Replayed(t, r, p)
 		return
 	}
-	n1 := verifmc.Pick(6, 7)    // blocks (incl. root) in the first round
-	n2 := verifmc.Pick(5, 6)    // first-round size up to which a second round is explored
-	k2 := verifmc.Pick(2, 2)    // additions in the second round
-	k2s := verifmc.Pick(0, 3)   // additions in the second round for first-round size <= n2s
-	n2s := verifmc.Pick(0, 5)
+	n1 := verifmc.Pick(6, 7) // blocks (incl. root) in the first round
 	rootNums := []uint{0, 3}
-	r.Rule = fmt.Sprintf("histories A^n [P [A^k [P]]] on the real BlockTree: A^n = every parent vector with n<=%d nodes x every primary/secondary marking x root number in %v; P = Prune of every block ever created; A^k = k<=%d further additions (n<=%d; k<=%d for n<=%d) below every block ever created (held, finalised away, pruned or rejected) x every marking; each history is replayed on a fresh tree, the result of its last mutator and GetAllBlocks/Leaves/GetAllDescendants/IsDescendantOf/LowestCommonAncestor/Range/RangeInMemory for all ordered pairs of created blocks and GetHashesAtNumber/GetHashByNumber for every number are compared with a parent-map model; non-trivial = distinct canonical dump of the private tree", n1, rootNums, k2, n2, k2s, n2s)
+	// additions in the second round, by first-round size and root number
+	round2 := func(n int, rootNum uint) int {
+		if verifmc.Thorough() {
+			switch {
+			case n <= 4:
+				return 3
+			case n == 5:
+				return 2
+			case n == 6:
+				return 1
+			}
+			return 0
+		}
+		if n <= 4 && rootNum == 0 {
+			return 2
+		}
+		return 0
+	}
+	r.Rule = fmt.Sprintf("histories A^n [P [A^k [P]]] on the real BlockTree: A^n = every parent vector with n<=%d nodes x every primary/secondary marking x root number in %v; P = Prune of every block ever created; A^k = further additions below every block ever created (held, finalised away, pruned or rejected) x every marking, k<=%s; each history is replayed on a fresh tree, the result of its last mutator and GetAllBlocks/Leaves/GetAllDescendants/IsDescendantOf/LowestCommonAncestor/Range/RangeInMemory for all ordered pairs of held blocks (blocks the tree must not hold: paired with the root and a leaf) and GetHashesAtNumber/GetHashByNumber for every number are compared with a parent-map model; non-trivial = distinct canonical dump of the private tree", n1, rootNums,
+		verifmc.Pick("2 for n<=4 with root number 0", "3 for n<=4, 2 for n=5, 1 for n=6, both root numbers"))
 	r.Assumption("reference model: parent map over labelled blocks (harness/shared/lib__blocktree/c15_blocktree_common_test.go); the best leaf used for the by-number oracle is the tree's own BestBlockHash (its choice is C16's subject)")
 
 	states := map[[16]byte]struct{}{}
 	var vioAll []verifmc.Violation
+	vioCount := map[string]int64{}
 	for n := 1; n <= n1; n++ {
 		var elems []c15Elem
 		for _, rn := range rootNums {
@@ -615,14 +724,7 @@ func TestVerif_C15(t *testing.T) {
 					for i := 1; i < n; i++ {
 						base[i-1] = c15Op{parent: parent[i], primary: mk[i-1] == 1}
 					}
-					e := c15Elem{rootNum: rn, base: base, n: n}
-					if n <= n2 {
-						e.round2 = k2
-					}
-					if n <= n2s && k2s > e.round2 {
-						e.round2 = k2s
-					}
-					elems = append(elems, e)
+					elems = append(elems, c15Elem{rootNum: rn, base: base, n: n, round2: round2(n, rn)})
 				})
 			})
 		}
@@ -652,6 +754,9 @@ func TestVerif_C15(t *testing.T) {
 			r.Add("evaluations", c.hists)
 			r.Add("queries_compared", c.queries)
 			vioAll = append(vioAll, c.vios...)
+			for k, v := range c.vioCount {
+				vioCount[k] += v
+			}
 			c.states, c.outcomes, c.vios = nil, nil, nil
 		}
 		r.Extra[fmt.Sprintf("first_round_histories_n%d", n)] = len(elems)
@@ -667,5 +772,6 @@ func TestVerif_C15(t *testing.T) {
 	for _, v := range vioAll {
 		r.Violate(v.Sig, v.Desc, v.Replay)
 	}
+	r.Extra["mismatches_per_signature"] = vioCount
 	r.Add("states", int64(len(states)))
 }
